@@ -214,8 +214,8 @@ func init() {
 		for k := int64(0); k < n; k++ {
 			conds[k] = e.tt.Eq(v, e.mkInt(tInt, k))
 		}
-		e.assume(e.tt.Or(conds...))
-		k := e.chooseAmong(conds, "Choose "+name)
+		// v is a fresh variable: every alternative is feasible by construction
+		k := e.chooseFresh(conds)
 		e.chooseTrace = append(e.chooseTrace, fmt.Sprintf("%s=%d", name, k))
 		return e.goInt(k)
 	})
@@ -311,6 +311,28 @@ func init() {
 			y = x
 		}
 		return e.newBig(e.bv256(op, x, y))
+	})
+	z("All", func(e *Engine, fr *frame, a []Value) Value {
+		var cs []*Term
+		for _, v := range a[0].([]Value) {
+			cs = append(cs, v.(*Term))
+		}
+		return e.tt.And(cs...)
+	})
+	z("Any", func(e *Engine, fr *frame, a []Value) Value {
+		var cs []*Term
+		for _, v := range a[0].([]Value) {
+			cs = append(cs, v.(*Term))
+		}
+		return e.tt.Or(cs...)
+	})
+	z("IteBig", func(e *Engine, fr *frame, a []Value) Value {
+		c := a[0].(*Term)
+		x, y := e.bigGet(a[1], "IteBig"), e.bigGet(a[2], "IteBig")
+		return e.newBig(bigV{t: e.tt.Ite(c, x.t, y.t), bits: maxi(x.bits, y.bits), nn: x.nn && y.nn})
+	})
+	z("IteU64", func(e *Engine, fr *frame, a []Value) Value {
+		return e.tt.Ite(a[0].(*Term), a[1].(*Term), a[2].(*Term))
 	})
 	z("AllocReset", func(e *Engine, fr *frame, a []Value) Value {
 		e.allocLog = e.allocLog[:0]
@@ -493,6 +515,46 @@ func init() {
 		n := n
 		intrinsics[n] = func(e *Engine, fr *frame, a []Value) Value { return strV{opaque: n} }
 	}
+
+	// ---- keccak: concrete on concrete bytes, injective UF on symbolic bytes ----
+	keccak := func(asHash bool) intrinsic {
+		return func(e *Engine, fr *frame, a []Value) Value {
+			var all []Value
+			for _, part := range a[0].([]Value) {
+				all = append(all, part.([]Value)...)
+			}
+			conc := make([]byte, 0, len(all))
+			ok := true
+			for _, b := range all {
+				t := b.(*Term)
+				if !t.IsConst() {
+					ok = false
+					break
+				}
+				conc = append(conc, byte(t.Uint64()))
+			}
+			var out array
+			if ok {
+				h := keccak256(conc)
+				out = make(array, 32)
+				for i := range out {
+					out[i] = e.byteTerm(h[i])
+				}
+			} else {
+				ts := make([]*Term, len(all))
+				for i, b := range all {
+					ts[i] = b.(*Term)
+				}
+				out = e.hashResult("keccak256", ts, true).(array)
+			}
+			if asHash {
+				return out
+			}
+			return []Value(out)
+		}
+	}
+	intrinsics[ModPath+"/crypto.Keccak256"] = keccak(false)
+	intrinsics[ModPath+"/crypto.Keccak256Hash"] = keccak(true)
 
 	// ---- time ----
 	intrinsics["time.Now"] = func(e *Engine, fr *frame, a []Value) Value {
